@@ -398,10 +398,32 @@ func (a *ad) Drain() interface{} {
 type gen struct {
 	n    int
 	gone []int // handles known to be outside the heap (they were handed to Remove and not pushed again)
+	peak int   // > 0: a "swell" trace - the heap first grows to this many elements, then is taken apart again
 }
 
-func (g *gen) Init(rng *rand.Rand) json.RawMessage { g.n = 0; g.gone = nil; return json.RawMessage(`{}`) }
+func (g *gen) Init(rng *rand.Rand) json.RawMessage {
+	g.n, g.gone, g.peak = 0, nil, 0
+	if rng.Intn(4) == 0 {
+		// past 32 elements (a backing array of 64), then down through a quarter of that, mostly by Remove of handles
+		g.peak = 33 + rng.Intn(12)
+	}
+	return json.RawMessage(`{}`)
+}
 func (g *gen) Next(rng *rand.Rand, step int) core.Op {
+	if g.peak > 0 {
+		if step < g.peak {
+			g.n++
+			return core.MkOp("Push", 1+rng.Intn(5))
+		}
+		switch x := rng.Intn(20); {
+		case x < 14:
+			return core.MkOp("Remove", 1+rng.Intn(g.n))
+		case x < 18:
+			return core.MkOp("Pop")
+		default:
+			return core.MkOp("Fix", 1+rng.Intn(g.n), 1+rng.Intn(5))
+		}
+	}
 	if step == 0 && rng.Intn(2) == 0 {
 		k := rng.Intn(12)
 		ps := make([]int, k)
